@@ -38,7 +38,7 @@ ASSUMPTIONS = [
     "reference stream interpreter B3 in this file (DESIGN.md Appendix B3) decides accept / reject / not-done and the resulting content",
     "TTLs are a function of (owner, type) so RRset TTLs do not change between versions",
 ]
-REQUIRED = ["mon.transferred_zone_form", "mon.faulted_via_socket_loop", "mon.via_socket_loop", "mon.via_socket_loop_udp", "mon.via_socket_loop_async", "mon.valid_transfer_converges", "mon.faulted_transfer", "mon.error_leaves_zone_untouched", "mon.must_reject_classes", "mon.notdone_leaves_zone_untouched"]
+REQUIRED = ["mon.transfer_into_zone_of_another_class", "mon.transferred_zone_form", "mon.faulted_via_socket_loop", "mon.via_socket_loop", "mon.via_socket_loop_udp", "mon.via_socket_loop_async", "mon.valid_transfer_converges", "mon.faulted_transfer", "mon.error_leaves_zone_untouched", "mon.must_reject_classes", "mon.notdone_leaves_zone_untouched"]
 BUDGET = {"quick": 45.0, "thorough": 480.0}
 
 FACTORIES = [("plain", dns.zone.Zone), ("versioned", dns.versioned.Zone), ("btree", dns.btreezone.Zone)]
@@ -814,8 +814,52 @@ def run_via_query_udp(ctx, rng, zname, factory, relativize, z0, s0, msgs, tcp_re
         ctx.violation("malformed-or-incomplete-udp-answer-not-reported", f"{tag}: reference {final}", case)
 
 
+def other_class_drill(ctx, rng):
+    """an incremental transfer into a zone of class CH or HS (plain and versioned zones): whole record sets deleted, records
+    replaced, names added -- the zone ends as the server's version, as for class IN"""
+    ctx.count("evaluations")
+    ctx.count("mon.transfer_into_zone_of_another_class")
+    cls = rng.choice(("CH", "HS"))
+    zname, factory = rng.choice((("plain", dns.zone.Zone), ("versioned", dns.versioned.Zone), ("btree", dns.btreezone.Zone)))
+    relativize = rng.random() < 0.5
+    n_old = rng.randint(1, 3)
+
+    def text(serial, recs):
+        return "".join(f"{o} 300 {cls} {t} {d}\n" for o, t, d in [("example.", "SOA", f"ns.example. host.example. {serial} 3600 600 86400 60"), ("example.", "NS", "ns.example.")] + recs)
+
+    v1 = [("keep.example.", "TXT", '"stay"'), ("version.example.", "TXT", '"1.0"')] + [(f"old{i}.example.", t, d) for i in range(n_old) for t, d in (("TXT", '"gone"'), ("HINFO", '"a" "b"'))]
+    v2 = [("keep.example.", "TXT", '"stay"'), ("version.example.", "TXT", '"2.0"'), ("new.example.", "TXT", '"n"')]
+    deleted = [r for r in v1 if r not in v2]
+    added = [r for r in v2 if r not in v1]
+    case = {"kind": "other-class", "class": cls, "zone": zname, "relativize": relativize}
+    try:
+        z = dns.zone.from_text(text(1, v1), origin=ORIGIN, rdclass=dns.rdataclass.from_text(cls), relativize=relativize, zone_factory=factory)
+        want = GZ.content_of_lib_zone(dns.zone.from_text(text(2, v2), origin=ORIGIN, rdclass=dns.rdataclass.from_text(cls), relativize=relativize))
+        m = dns.message.Message(id=1)
+        m.flags = dns.flags.QR | dns.flags.AA
+        m.find_rrset(m.question, ORIGIN, dns.rdataclass.from_text(cls), dns.rdatatype.IXFR, create=True, force_unique=True)
+        soa1 = ("example.", "SOA", "ns.example. host.example. 1 3600 600 86400 60")
+        soa2 = ("example.", "SOA", "ns.example. host.example. 2 3600 600 86400 60")
+        for o, t, d in [soa2, soa1] + deleted + [soa2] + added + [soa2]:
+            m.answer.append(dns.rrset.from_text(o, 300, cls, t, d))
+        parsed = dns.message.from_wire(m.to_wire(max_size=65535, want_shuffle=False), xfr=True, one_rr_per_rrset=True, origin=z.origin if relativize else None)
+        with dns.xfr.Inbound(z, dns.rdatatype.IXFR, serial=1, is_udp=False) as inbound:
+            done = inbound.process_message(parsed)
+    except Exception as e:
+        ctx.violation(f"valid-stream-rejected:zone-of-class-{cls}:{zname}:" + core.exc_sig(e), repr(e), case)
+        return
+    ctx.seen(("other-class", cls, zname, relativize))
+    got = GZ.content_of_lib_zone(z)
+    if not done:
+        ctx.violation(f"complete-stream-not-done:zone-of-class-{cls}:{zname}", "", case)
+    elif got != want:
+        ctx.violation(f"transfer-result-differs-from-server-zone:zone-of-another-class:{zname}", f"class {cls}: {diffc(got, want)}", case)
+
+
 def run(spec, ctx):
     rng = ctx.rng
+    for _ in range(12):
+        other_class_drill(ctx, rng)
     for it in range(spec["n"]):
         if ctx.expired(1.0):
             break
